@@ -12,3 +12,7 @@ package lokiapi
 //@   inline
 //@ func (OptLokiTime).Or
 //@   inline
+//@ func (*QueryResponseData).SetStreamsResult
+//@   inline
+//@ func NewOptLabelSet
+//@   inline
